@@ -906,3 +906,67 @@ T('k18f_generator_function_listed', ['C18'], (META, GMI, '''def iter_mw_infos(_a
 def get_mw_infos(_application):
     return list(iter_mw_infos(_application))
 '''))
+
+# R18.c: sibling views -- every routed method of the meta application that runs peripheral code does so per peripheral, fail-soft
+_JSON_ROUTE = "                  ('/json/', self.get_main, render_json)]"
+_GET_MAIN_DEF = "    def get_main(self, request, _application, _route, script_root):\n"
+B('k18c_json_route_unprotected_endpoint', ['C18'], 'R18.c', (META, _JSON_ROUTE, "                  ('/json/', self.get_main_json, render_json)]"),
+  (META, _GET_MAIN_DEF, '''    def get_main_json(self, request, _application, _route, script_root):
+        kwargs = {'request': request, '_route': _route, '_application': _application,
+                  '_meta_application': self, 'script_root': script_root}
+        ret = {'page_title': self.page_title}
+        for peri in self.peripherals:
+            ret.setdefault(peri.group_key, {}).update(inject(peri.get_context, kwargs))
+        return ret
+
+''' + _GET_MAIN_DEF))
+B('k18c_extra_section_route_unprotected', ['C18'], 'R18.c', (META, _JSON_ROUTE, "                  ('/json/', self.get_main, render_json),\n                  ('/json/<group_key>', self.get_group, render_json)]"),
+  (META, _GET_MAIN_DEF, '''    def get_group(self, group_key, request, _application, _route, script_root):
+        kwargs = {'request': request, '_route': _route, '_application': _application,
+                  '_meta_application': self, 'script_root': script_root}
+        ret = {}
+        try:
+            for peri in self.peripherals:
+                if peri.group_key == group_key:
+                    ret.update(inject(peri.get_context, kwargs))
+        except Exception as e:
+            ret = {'exc_content': repr(e)}
+        return ret
+
+''' + _GET_MAIN_DEF))
+B('k18c_plain_renderer_direct_calls', ['C18'], 'R18.c', (META, _JSON_ROUTE, "                  ('/json/', self.get_main, render_json),\n                  ('/plain/', self.get_main, self.render_plain)]"),
+  (META, _GET_MAIN_DEF, '''    def render_plain(self, context):
+        parts = []
+        for peri in self.peripherals:
+            parts.append(peri.render_main_page_html(context[peri.group_key]) or '')
+        return '\\n'.join(parts)
+
+''' + _GET_MAIN_DEF))
+T('k18c_json_route_delegating_endpoint', ['C18'], (META, _JSON_ROUTE, "                  ('/json/', self.get_main_json, render_json)]"),
+  (META, _GET_MAIN_DEF, '''    def get_main_json(self, request, _application, _route, script_root):
+        return self.get_main(request, _application, _route, script_root)
+
+''' + _GET_MAIN_DEF))
+T('k18c_extra_section_route_protected', ['C18'], (META, _JSON_ROUTE, "                  ('/json/', self.get_main, render_json),\n                  ('/json/<group_key>', self.get_group, render_json)]"),
+  (META, _GET_MAIN_DEF, '''    def get_group(self, group_key, request, _application, _route, script_root):
+        kwargs = {'request': request, '_route': _route, '_application': _application,
+                  '_meta_application': self, 'script_root': script_root}
+        ret = {}
+        for peri in self.peripherals:
+            if peri.group_key != group_key:
+                continue
+            try:
+                ret.update(inject(peri.get_context, kwargs))
+            except Exception as e:
+                ret.update({'exc_content': repr(e)})
+        return ret
+
+''' + _GET_MAIN_DEF))
+T('k18c_routes_built_by_method', ['C18'], (META, "        routes = [('/', self.get_main, self.render_main_page_html),\n                  ('/clastic_assets/', META_ASSETS_APP),\n" + _JSON_ROUTE,
+                                          "        routes = self._own_routes()"),
+  (META, _GET_MAIN_DEF, '''    def _own_routes(self):
+        html = Route('/', self.get_main, self.render_main_page_html)
+        as_json = Route('/json/', endpoint=self.get_main, render=render_json)
+        return [html, ('/clastic_assets/', META_ASSETS_APP), as_json]
+
+''' + _GET_MAIN_DEF), (META, "from .application import Application, NullRoute, RESERVED_ARGS", "from .application import Application, NullRoute, RESERVED_ARGS\nfrom .route import Route"))
